@@ -11,6 +11,7 @@ def step (_ : Unit) (ws : List String) : Unit × String :=
   match ws with
   | "up" :: _ => ((), "ok")
   | ["start", _] | ["kill", _] | ["stop", _] | ["cont", _] | ["settle", _] => ((), "ok")
+  | ["caughtup", _, _] => ((), "caughtup **")
   | "pub" :: _ | "rm" :: _ | "reg" :: _ | "dereg" :: _ | "beat" :: _ | "greg" :: _ | "gdereg" :: _ => ((), "*")
   | "get" :: _ => ((), "*")
   | "getall" :: _ => ((), "all **")
@@ -89,6 +90,10 @@ def specStep (s : SpecSt) (ws : List String) : SpecSt × String :=
       let back := (s.gheld.filter (·.1 == i)).map (·.2)
       ({ s0 with gdead := s.gdead.filter (fun e => !back.contains e) }, "-")
     | ["settle", ms] => ({ s0 with sinceKill := s.sinceKill + ms.toNat?.getD 0 }, "-")
+    | ["caughtup", i, ms] =>
+      -- C08: a node that joined late or fell behind is caught up (log or snapshot) - within the bound given
+      (s0, if ans.getD 1 "" == "ok" then "spec ok"
+           else s!"spec FAIL node {i} has not applied what the other nodes have applied within {ms} ms ({" ".intercalate ans})")
     | ["getall", k] =>
       if !s.formed then (s0, "-") else
       let vals := (nodeVals (ans.drop 1)).filter (·.2 != "down")
